@@ -109,7 +109,10 @@ def zoo_renamings(chk, tier, seed):
             else:
                 chk.nontrivial(('zoo_names', name, cname, direction, order))
     # the reported tables under the new names: balance and accounting, decided by TLC
-    common.zoo_portfolio_traces(chk, seeds=[seed], routes=('mono',), zoo_list=[b[3] for b in builders if th or b[2] == 'up'], tag='zoo_renamed', orders=('given',))
+    # (monolithic and split set-up, the asset list as given and reversed: per-asset dispatch and cash flows must be found under the new names and
+    #  at the new positions)
+    common.zoo_portfolio_traces(chk, seeds=[seed], routes=('mono', 'split'), zoo_list=[b[3] for b in builders if th or b[2] == 'up'], tag='zoo_renamed',
+                                orders=('given', 'reversed'))
 
 
 def run(tier, seed):
